@@ -229,7 +229,7 @@ impl SVCB {
             // get the value, and remove any quotes
             let mut value = key_value.next();
             if let Some(value) = value.as_mut() {
-                if value.starts_with('"') && value.ends_with('"') {
+                if value.len() >= 2 && value.starts_with('"') && value.ends_with('"') {
                     *value = &value[1..value.len() - 1];
                 }
             }
